@@ -48,12 +48,12 @@ type c07Layers struct {
 
 func init() {
 	register(&Prop{ID: "C07", Run: c07Run,
-		Rule: "pairs of root containers over path-safe keys (two key pools, one with keys such as a / a-b / aB / a_ whose paths interleave with a. and a[ in byte order): R is L after 0-4 random local edits (key added/removed, leaf changed, kind changed, list edited), or an independent document, or a copy, or a copy differing in exactly one scalar by a confusable pair (same number under another Go type, neighbouring integers beyond 2^53, a value and its printed text); overlay cases hold 0-3 named layers per side; 900 pairs in which a composite subtree of L occurs at two or three positions and is ONE node object there (R lacks a key above it, is empty, independent, or a near miss; sides swapped one time in three); 500 pairs whose L is diffed, edited in place 1-4 times (AddValue / Remove / Set / MustSet / Append / Clear through nested builders, Lookup, the root's path API) and diffed again against the content it must hold then and against a freshly built document; 700 pairs whose documents hold IMMUTABLE nodes: one composite position in three (lists and containers, either side or both) is attached as the sealed view (ListBuilder.Seal / ContainerBuilder.Seal) of its builder, one time in three the sealed roots are what Diff is given, one time in three L is edited in between through the kept builders; the sequence returned by the first call is re-read after twenty later calls; domdiff cases go through the pipeline template engine. A pair is non-trivial when Diff(L,R) is non-empty or both documents have more than one node; distinct = distinct canonical case JSON (hash).",
+		Rule: "pairs of root containers over path-safe keys (two key pools, one with keys such as a / a-b / aB / a_ whose paths interleave with a. and a[ in byte order): R is L after 0-4 random local edits (key added/removed, leaf changed, kind changed, list edited), or an independent document, or a copy, or a copy differing in exactly one scalar by a confusable pair (same number under another Go type, neighbouring integers beyond 2^53, a value and its printed text); overlay cases hold 0-3 named layers per side; 900 pairs in which a composite subtree of L occurs at two or three positions and is ONE node object there (R lacks a key above it, is empty, independent, or a near miss; sides swapped one time in three); 500 pairs whose L is diffed, edited in place 1-4 times (AddValue / Remove / Set / MustSet / Append / Clear through nested builders, Lookup, the root's path API) and diffed again against the content it must hold then and against a freshly built document; 700 pairs whose documents hold IMMUTABLE nodes: one composite position in three (lists and containers, either side or both) is attached as the sealed view (ListBuilder.Seal / ContainerBuilder.Seal) of its builder, one time in three the sealed roots are what Diff is given, one time in three L is edited in between through the kept builders; the sequence returned by the first call is re-read after twenty later calls; 1200 pairs (plus overlay and domdiff cases) whose member names are arbitrary TEXT free of the path metacharacters '.', '[' and ']' (names with %, #, :, /, *, \\, white space, non-ASCII characters, numerals), lists frequent; domdiff cases go through the pipeline template engine. A pair is non-trivial when Diff(L,R) is non-empty or both documents have more than one node; distinct = distinct canonical case JSON (hash).",
 		Assumptions: []string{"scalars are NaN-free and -0-free, so cmp.Equal on leaves coincides with equality of (Go type, fmt.Sprint) pairs",
-			"keys are non-empty over [A-Za-z0-9_-] (path-safe); Lean's String order (code points) equals Go's byte order on these ASCII paths",
+			"keys are non-empty and path-safe: free of the three path metacharacters '.', '[' and ']' (most pools are over [A-Za-z0-9_-]; the text pools hold any other characters, valid UTF-8); Lean's String order (code points) equals Go's byte order on valid UTF-8",
 			"the statement's 'Delete immediately followed by Adds' is read as the quantifier text spells it out: the sequence is sorted by path and, among equal paths, the Delete precedes the Add; with a sibling key such as a-b or aB the block Delete a / Add a[0] is not contiguous after sorting (Delete a, Add a-b, Add a[0])"}})
 	evals["C07"] = c07Eval
-	shrinkers["C07"] = shrinkJSON
+	shrinkers["C07"] = c07Shrink
 }
 
 var c07KeysB = []string{"a", "b", "a-b", "aB", "a_", "c"}
@@ -211,6 +211,243 @@ func c07Run(c *Ctx) {
 	for i := 0; i < c.N(150); i++ {
 		c.Tick()
 		c.Do("domdiff", c07GenPair(r))
+	}
+	c07RunText(c)
+	c07RunBig(c)
+	c07RunHist(c) // c07_hist.go
+}
+
+// c07BigDocs: a pair of documents that differ at MANY positions (about 260-700 modifications): 4-12 groups of scalar
+// members, each member of the left one kept, changed, dropped on the right or present on the right only; now and then
+// a long list that differs.  one: "" both sides, "l" / "r" the document exists on that side only (the other is empty).
+func c07BigDocs(r *rand.Rand, g *DocGen, one string) (W, W) {
+	for {
+		lm, rm := map[string]any{}, map[string]any{}
+		groups := 4 + r.Intn(9)
+		flat := r.Intn(3) == 0 || one == "r" // members directly below the root instead of in groups (a document the right side has alone gives one Delete per member of its root)
+		for gi := 0; gi < groups; gi++ {
+			lg, rg := map[string]any{}, map[string]any{}
+			for k, n := 0, 30+r.Intn(50); k < n; k++ {
+				key := fmt.Sprintf("k%03d", k)
+				if flat {
+					key = fmt.Sprintf("g%02dk%03d", gi, k)
+				}
+				v := g.Scalar(r)
+				switch r.Intn(6) {
+				case 0: // same on both sides
+					lg[key], rg[key] = v, deepCopyW(v)
+				case 1, 2: // changed
+					lg[key], rg[key] = v, scalarWire(100+r.Intn(50))
+				case 3: // left only
+					lg[key] = v
+				case 4: // right only
+					rg[key] = v
+				default:
+					if r.Intn(8) == 0 { // a list that differs
+						ll := make([]any, 5+r.Intn(30))
+						for i := range ll {
+							ll[i] = g.Scalar(r)
+						}
+						lg[key], rg[key] = ll, []any{scalarWire("other")}
+					} else {
+						lg[key], rg[key] = v, scalarWire("changed")
+					}
+				}
+			}
+			if flat {
+				for k, v := range lg {
+					lm[k] = v
+				}
+				for k, v := range rg {
+					rm[k] = v
+				}
+			} else {
+				lm[fmt.Sprintf("g%02d", gi)] = map[string]any{"m": lg}
+				rm[fmt.Sprintf("g%02d", gi)] = map[string]any{"m": rg}
+			}
+		}
+		var l, rr W = map[string]any{"m": lm}, map[string]any{"m": rm}
+		switch one {
+		case "l":
+			rr = map[string]any{"m": map[string]any{}}
+		case "r":
+			l = map[string]any{"m": map[string]any{}}
+		}
+		if n := len(c07RefDiff(l, rr)); n > 256 || one == "r" {
+			return l, rr
+		}
+	}
+}
+
+// c07RunBig: a few LARGE cases per run ("for all pairs of documents", "for every layer name" hold for documents of
+// any size): overlay documents of 2-4 layers one (sometimes two) of which differ at several hundred positions while
+// the others differ at a few, and plain pairs of that size.
+func c07RunBig(c *Ctx) {
+	r := c.Rng
+	names := []string{"base", "dev", "prod", "x-1"}
+	for i := 0; i < c.N(6); i++ {
+		c.Tick()
+		g := c07Gen(r)
+		lm, rm := map[string]any{}, map[string]any{}
+		use := names[:2+r.Intn(3)]
+		big := r.Intn(len(use))
+		big2 := -1
+		if r.Intn(4) == 0 {
+			big2 = r.Intn(len(use))
+		}
+		for k, n := range use {
+			if k == big || k == big2 {
+				l, rr := c07BigDocs(r, g, pick(r, []string{"", "", "", "l", "r"}))
+				if lc, _ := wireCont(l); len(lc) > 0 {
+					lm[n] = l
+				}
+				if rc, _ := wireCont(rr); len(rc) > 0 {
+					rm[n] = rr
+				}
+				continue
+			}
+			switch r.Intn(6) {
+			case 0:
+				lm[n] = g.Doc(r)
+			case 1:
+				rm[n] = g.Doc(r)
+			default:
+				d := g.Doc(r)
+				lm[n] = d
+				rm[n] = g.Mutate(r, g.Mutate(r, d))
+			}
+		}
+		c.Dist("overlay:a-layer-with-hundreds-of-modifications")
+		c.Do("overlay", c07Layers{map[string]any{"m": lm}, map[string]any{"m": rm}})
+	}
+	for i := 0; i < c.N(2); i++ {
+		c.Tick()
+		l, rr := c07BigDocs(r, c07Gen(r), "")
+		c.Dist("pair:hundreds-of-modifications")
+		c.Do("pair", c07Pair{L: l, R: rr})
+	}
+}
+
+// c07Shrink: big cuts first (halves and quarters of the members of a wide container, of the items of a long list),
+// then the generic one-node-at-a-time candidates.
+func c07Shrink(kind string, raw []byte) [][]byte {
+	var v any
+	if err := json.Unmarshal(raw, &v); err != nil {
+		return nil
+	}
+	var out [][]byte
+	emit := func() {
+		if b, err := json.Marshal(v); err == nil && len(b) < len(raw) {
+			out = append(out, b)
+		}
+	}
+	var walk func(x any, set func(any))
+	walk = func(x any, set func(any)) {
+		switch t := x.(type) {
+		case []any:
+			if n := len(t); n >= 8 {
+				for _, cut := range [][2]int{{0, n / 2}, {n / 2, n}, {0, n / 4}, {n / 4, n / 2}, {n / 2, 3 * n / 4}, {3 * n / 4, n}} {
+					set(append(append([]any{}, t[:cut[0]]...), t[cut[1]:]...))
+					emit()
+					set(t)
+				}
+			}
+			for i := range t {
+				i := i
+				walk(t[i], func(n any) { t[i] = n })
+			}
+		case map[string]any:
+			ks := sortedKeys(t)
+			if n := len(ks); n >= 8 {
+				for _, cut := range [][2]int{{0, n / 2}, {n / 2, n}, {0, n / 4}, {n / 4, n / 2}, {n / 2, 3 * n / 4}, {3 * n / 4, n}, {0, n / 8}, {7 * n / 8, n}} {
+					saved := map[string]any{}
+					for _, k := range ks[cut[0]:cut[1]] {
+						saved[k] = t[k]
+						delete(t, k)
+					}
+					emit()
+					for k, e := range saved {
+						t[k] = e
+					}
+				}
+			}
+			for _, k := range ks {
+				k := k
+				walk(t[k], func(n any) { t[k] = n })
+			}
+		}
+	}
+	walk(v, func(n any) { v = n })
+	return append(out, shrinkJSON(kind, raw)...)
+}
+
+// c07GenText: member names as TEXT.  A flatten-style path carries a member name unchanged, so any name free of the
+// three path metacharacters '.', '[' and ']' is path-safe: names with '%', '#', ':', '/', '*', '\\', white space,
+// non-ASCII characters, numerals (the pools of harness/c08.go).  Lists are frequent, so that such a name often lies on
+// the way to a list whose leaves are reported.
+func c07GenText(r *rand.Rand) *DocGen {
+	g := c07Gen(r)
+	if r.Intn(2) == 0 {
+		g.Keys = c08KeysOdd
+	} else {
+		g.Keys = c08TextKeys(r)
+	}
+	g.PList += 0.15
+	return g
+}
+
+func c07GenPairWith(r *rand.Rand, g *DocGen) c07Pair {
+	l := g.Doc(r)
+	var rr W
+	switch k := r.Intn(10); {
+	case k == 0:
+		rr = g.Doc(r)
+	case k == 1:
+		rr = deepCopyW(l)
+	default:
+		rr = deepCopyW(l)
+		for i, n := 0, 1+r.Intn(4); i < n; i++ {
+			rr = g.Mutate(r, rr)
+		}
+	}
+	if r.Intn(2) == 0 {
+		l, rr = rr, l
+	}
+	return c07Pair{L: l, R: rr}
+}
+
+// c07RunText: pairs, overlay documents and domdiff calls over documents whose member names are arbitrary text.
+func c07RunText(c *Ctx) {
+	r := c.Rng
+	for i := 0; i < c.N(1200); i++ {
+		c.Tick()
+		c.Dist("pair:text-member-names")
+		c.Do("pair", c07GenPairWith(r, c07GenText(r)))
+	}
+	names := []string{"base", "dev", "prod"}
+	for i := 0; i < c.N(120); i++ {
+		c.Tick()
+		g := c07GenText(r)
+		lm, rm := map[string]any{}, map[string]any{}
+		for _, n := range names {
+			switch r.Intn(5) {
+			case 0:
+				lm[n] = g.Doc(r)
+			case 1:
+				rm[n] = g.Doc(r)
+			case 2:
+			default:
+				d := g.Doc(r)
+				lm[n] = d
+				rm[n] = g.Mutate(r, d)
+			}
+		}
+		c.Dist("overlay:text-member-names")
+		c.Do("overlay", c07Layers{map[string]any{"m": lm}, map[string]any{"m": rm}})
+	}
+	for i := 0; i < c.N(40); i++ {
+		c.Tick()
+		c.Do("domdiff", c07GenPairWith(r, c07GenText(r)))
 	}
 }
 
@@ -548,6 +785,8 @@ func c07Render(ms []diff.Modification) string {
 
 func c07Eval(c *Ctx, kind string, raw []byte) {
 	switch kind {
+	case "afterfail":
+		c07EvalAfterFail(c, raw) // c07_hist.go
 	case "pair":
 		var p c07Pair
 		if err := json.Unmarshal(raw, &p); err != nil {
